@@ -975,6 +975,8 @@ func execCase(e *env, c *Case) outcome {
 		return outcome{inconcl: "cases observed under concurrency are not replayable sequentially: " + c.Note}
 	case "c04":
 		return execC04(e, c)
+	case "c04-upload":
+		return execC04Upload(e, c)
 	case "c04-seq":
 		return execSeq(e, c)
 	}
